@@ -75,6 +75,9 @@ def run(ctx: Ctx):
                     for has_cutoff in (False, True):
                         evs.append(block_event(n, shifted, rq, margin, lazy=(rq is not None and rq[0] == 9), has_cutoff=has_cutoff))
                         ctx.case(("block", n, shifted, tuple(rq or ()), margin, has_cutoff))
+                        if rq is not None and rq[0] in (5, 9) and margin != "default":
+                            evs.append(block_event(n, shifted, rq, margin, lazy=(rq[0] == 9), has_cutoff=has_cutoff, reuse=True))
+                            ctx.case(("block-reuse", n, shifted, tuple(rq), margin, has_cutoff))
     ctx.exhaustive = True
     for e in evs[:1] + evs[-1:]:
         ctx.sample(e)
@@ -86,7 +89,7 @@ def replay(ctx: Ctx, case):
     if e["k"] == "crop":
         ev = crop_event(e["case"], e.get("lazy", False))
     else:
-        ev = block_event(tuple(e["n"]), e["shifted"], e["radius_given"] or None, e["margin"], e.get("lazy", False), has_cutoff=e["has_cutoff"],
+        ev = block_event(tuple(e["n"]), e["shifted"], e["radius_given"] or None, e["margin"], e.get("lazy", False), has_cutoff=e["has_cutoff"], reuse=e.get("reuse", False),
                          cutoff_q=tuple(e["cutoff"]))
     ctx.case("replay")
     ctx.sample(ev)
